@@ -115,8 +115,15 @@ def gen_limit(rng, model, cfg):
       cls.append((c, []))
   for k, v in (entries + cls if order else cls + entries):
     lim[k] = v
-  if rng.integers(0, 2):
+  r = int(rng.integers(0, 6))
+  if r in (0, 1):
     lim["default"] = int(pick(rng, [4, 8]))
+  elif r == 2:
+    lim["default"] = [slotv("kernel"), slotv("bias"), slotv("activation")]
+  elif r == 3:
+    # the 4-element form [kernel, bias, recurrent kernel, activation]; the recurrent entry differs from the activation entry
+    a = int(pick(rng, [2, 3, 4]))
+    lim["default"] = [slotv("kernel"), slotv("bias"), int(pick(rng, [8, 16])), a]
   return lim
 
 
@@ -198,6 +205,7 @@ def main():
   n = 8 if rep.tier == "quick" else 120
   texts, items = [], []
   n_trials = n_exh = 0
+  pad_texts, pad_items = [], []
   sample = None
   size_cases = []
   for i in range(n):
@@ -228,6 +236,26 @@ def main():
       # _adjust_limit asserts on malformed limits: not a property violation, the constructor rejects the configuration
       continue
     adj = hm.limit
+    # ---- _adjust_limit: every short per-class list is padded role by role from `default`
+    dflt = limit.get("default")
+    dl = [8, 8, 8] if dflt is None else (list(dflt) if isinstance(dflt, list) else [dflt] * 3)
+    for cname in A.REGISTERED_LAYERS:
+      if cname not in limit:
+        continue
+      given = list(limit[cname])
+      seq = cname in A.SEQUENCE_LAYERS
+      roles = ["kernel", "bias", "recurrent", "activation"] if seq else ["kernel", "bias", "activation"]
+      by_role = {"kernel": dl[0], "bias": dl[1], "activation": dl[-1], "recurrent": dl[2] if len(dl) == 4 else None}
+      want = given + [by_role[r_] for r_ in roles[len(given):]]
+      rep.count(("adjust", cname, str(given), str(dflt)))
+      if adj.get(cname) != want:
+        rep.violation(f"limit-padding-{i}-{cname}", f"limit[{cname!r}] = {given} with default {dflt!r} became {adj.get(cname)}; padded role by role "
+                      f"({roles}) it is {want}", {"limit": str(limit), "adjusted": str(adj)})
+      # the polymorphic Coq pad_limit on slot identifiers
+      ids = {}
+      sid = lambda v: ids.setdefault(repr(v), len(ids) + 1)
+      pad_texts.append(f"pad_limit {vlib.blit(seq)} {clist(vlib.zlit(sid(v)) for v in dl)} {clist(vlib.zlit(sid(v)) for v in given)}")
+      pad_items.append((i, cname, given, dflt, [sid(v) for v in (adj.get(cname) or [])]))
     layers = [(l.name, type(l).__name__, bool(getattr(l, "use_bias", False)), act_kind(l)) for l in ref.layers]
     pats = list(adj.keys())
     table = [(p, nme) for p in pats for (nme, _, _, _) in layers if re.match(p, nme)]
@@ -612,6 +640,16 @@ def main():
     if got != impl:
       rep.violation(f"delta-sign-model-{dp}-{dn}-{rate}-{refsz}", f"signs of delta on the implementation {impl} differ from the Coq sign model {got}", {"reference": refsz})
   souts = vlib.coq_eval_many([(f"{PROP}_size", HEADER.replace("Open Scope string_scope.", "Open Scope Z_scope.") + "".join(f"Eval vm_compute in {t}.\n" for t in stexts))])[f"{PROP}_size"] if stexts else []
+  pouts = vlib.coq_eval(f"{PROP}_pad", "From Coq Require Import List ZArith Bool.\nFrom QV Require Import AutoQ.Limits.\nImport ListNotations.\nOpen Scope Z_scope.\n" +
+                        "".join(f"Eval vm_compute in {t}.\n" for t in pad_texts)) if pad_texts else []
+  n_pad = 0
+  for (i, cname, given, dflt, impl), got in zip(pad_items, pouts):
+    if got != impl:
+      rep.violation(f"limit-padding-model-{i}-{cname}", f"limit[{cname!r}] = {given} with default {dflt!r}: the adjusted list (slot ids {impl}) differs from the Coq pad_limit {got}",
+                    {"given": str(given), "default": str(dflt)})
+    else:
+      n_pad += 1
+  rep.note(adjusted_limit_lists=len(pad_items), equal_to_pad_limit=n_pad)
   n_size = 0
   for (i, which, flat, ls), got in zip(sitems, souts):
     if got != flat:
